@@ -7,7 +7,20 @@ ID = 'C14'
 GEN = [('Gen/C14.v', gen_C14.generate)]
 EQUIV_FILES = ['Proofs/C14.v']
 EXTRACT = 'Extract/C14_x.v'
-LIM = sys.get_int_max_str_digits()
+LIM = sys.get_int_max_str_digits()          # the interpreter's default (4300)
+LOWLIM = 640                                # smallest limit CPython lets one configure; used for most limit tests (cheap for the model)
+
+def lim_of(c):
+    return c.get('lim', LIM)
+
+class limit:
+    """run the implementation / oracle under the case's int_max_str_digits setting"""
+    def __init__(self, c): self.lim = c.get('lim')
+    def __enter__(self):
+        if self.lim is not None:
+            self.old = sys.get_int_max_str_digits(); sys.set_int_max_str_digits(self.lim)
+    def __exit__(self, *a):
+        if self.lim is not None: sys.set_int_max_str_digits(self.old)
 
 TRUSTED = [
     'CPython runtime modelled in Model/C14_Py.v: str(), int(str, 10|16) incl. whitespace/underscore/Unicode-digit rules and the '
@@ -90,7 +103,8 @@ NOT_SPACES = ['​', '﻿', '\x00', '᠎', '\x7f', '\x1b', '⁠', '_', '.']
 FOLDY = ['K', 'İ', 'ſ', 'ı', 'ﬀ', 'ﬆ', 'ß', 'Ｔ', 'ｔ', 'ᴛ', 'Σ', 'ς',
          'Å', 'Å', '１', '١', '¹', '①']
 LETTERS = 'abcdefghijklmnopqrstuvwxyzABCDEFGHIJKLMNOPQRSTUVWXYZ0123456789'
-BIG = 10 ** 4299            # 4300 digits
+BIG = 10 ** 4299            # 4300 digits (default limit)
+B6 = 10 ** 639               # 640 digits (LOWLIM)
 DEFAULTS = [B(False), B(True), NONE, S('dflt'), I(7)]
 
 def casings(w):
@@ -124,7 +138,7 @@ def rand_text(rng, n=None):
 
 NONSTR = [I(0), I(1), I(2), I(-1), I(10), B(True), B(False), NONE, F(1.0), F(0.0), F(-1.5), F(1e16), F(float('inf')), F(float('-inf')),
           F(float('nan')), Y(b'1'), Y(b'true'), Y(b''), Y(b'12'), T([]), T([1]), T([1, 2])]
-HUGE = [I(BIG * 10 - 1), I(BIG * 10), I(-BIG * 10)]
+HUGE = [I(B6 * 10 - 1), I(B6 * 10), I(-B6 * 10), I(-(B6 * 10 - 1)), I(B6), I(10 ** 700)]      # around LOWLIM
 
 def bool_subjects(rng, tier):
     words = DOC_TRUE + DOC_FALSE
@@ -136,7 +150,7 @@ def bool_subjects(rng, tier):
     for w in words:
         for sp in SPACES + NOT_SPACES:
             yield S(sp + w); yield S(w + sp); yield S(sp + w + sp)
-    for v in NONSTR + HUGE: yield v
+    for v in NONSTR: yield v
     n = 1500 if tier == 'quick' else 40000
     for _ in range(n):
         r = rng.random()
@@ -179,10 +193,12 @@ def int_forms(rng, n):
 
 INT_ODD = [S(''), S(' '), S('-'), S('+'), S('_'), S('-0'), S('+0'), S('0'), S('00'), S('-00'), S('0_0'), S('1__0'), S('٠'), S('-٣'), S('²'), S('Ⅷ'), S('①'),
            S('1e3'), S('1.0'), S('0x10'), S('0b1'), S('0o7'), S('١٢٣'), S('1٢'), S('1\x1c'), S('\x1c1'), S('\x851'), S('1　'), S('１２'), S('nan'), S('inf'),
-           S('True'), S('None'), S('1 2'), S('12abc'), S('−1'), S('1\n2'), S('9' * 4300), S('9' * 4301), S('-' + '9' * 4300), S('-' + '9' * 4301),
-           S('0' * 4301), S('0' * 4300), S('1_' * 4299 + '1'), S('1_' * 4300 + '1'), S(' +' + '1' * 4300 + ' '),
+           S('True'), S('None'), S('1 2'), S('12abc'), S('−1'), S('1\n2'),
            NONE, B(True), B(False), F(1.0), F(-0.0), F(1e300), F(float('inf')), F(float('-inf')), F(float('nan')), Y(b'12'), Y(b'x'), T([]), T([1]),
-           I(BIG * 10 - 1), I(BIG * 10), I(-(BIG * 10 - 1))]
+           ]
+INT_LIMIT = [S('9' * 640), S('9' * 641), S('-' + '9' * 640), S('-' + '9' * 641), S('0' * 641), S('0' * 640), S('1_' * 639 + '1'), S('1_' * 640 + '1'),
+             S(' +' + '1' * 640 + ' '), S('١' * 640), S('١' * 641), S('\x85' + '7' * 641), S('7' * 640 + '.0')] + HUGE
+INT_DEFAULT_LIMIT = [S('9' * 4301), I(BIG * 10), S('-' + '9' * 4300)]      # at the interpreter default: few (each costs the model seconds)
 
 BOUNDS = [(None, None), (0, None), (None, 0), (0, 0), (1, 10), (-5, 5), (10, 1), (0, 65535), (-2 ** 31, 2 ** 31 - 1), (0, 2 ** 64), (-10 ** 30, 10 ** 30),
           (12, 12), (None, -1), (100, None)]
@@ -241,6 +257,13 @@ def uuid_cases(rng, tier):
 def gen_cases(rng, tier):
     quick = tier == 'quick'
     # --- bool_from_string / is_valid_boolstr / int_from_bool_as_string
+    for v in HUGE:
+        for lim in (LOWLIM, 0):
+            for strict in (False, True):
+                yield {'op': 'bfs', 'v': v, 'strict': strict, 'default': rng.choice(DEFAULTS), 'kw': True, 'lim': lim}
+            yield {'op': 'ivb', 'v': v, 'lim': lim}
+            yield {'op': 'ifb', 'v': v, 'lim': lim}
+    yield {'op': 'bfs', 'v': I(BIG * 10), 'strict': False, 'default': B(False), 'kw': True}
     for k, v in enumerate(bool_subjects(rng, tier)):
         strict = rng.random() < 0.5
         yield {'op': 'bfs', 'v': v, 'strict': strict, 'default': rng.choice(DEFAULTS), 'kw': rng.random() < 0.8}
@@ -250,6 +273,16 @@ def gen_cases(rng, tier):
     for v in INT_ODD:
         yield {'op': 'iil', 'v': v}
         for lo, hi in (BOUNDS[:4] if v['t'] != 'i' else BOUNDS[:1]): yield {'op': 'vi', 'v': v, 'min': lo, 'max': hi}
+    for v in INT_LIMIT:
+        for lim in (LOWLIM, 0, None):
+            extra = {} if lim is None else {'lim': lim}
+            yield dict({'op': 'iil', 'v': v}, **extra)
+            yield dict({'op': 'vi', 'v': v, 'min': None, 'max': None}, **extra)
+            yield dict({'op': 'vi', 'v': v, 'min': 0, 'max': 10 ** 30}, **extra)
+            if v['t'] == 's': yield dict({'op': 'int', 's': v['v'], 'base': 10}, **extra)
+    for v in INT_DEFAULT_LIMIT:
+        yield {'op': 'iil', 'v': v}
+        yield {'op': 'vi', 'v': v, 'min': None, 'max': None}
     for lo, hi in BOUNDS:
         pts = set()
         for b in (lo, hi):
@@ -298,6 +331,10 @@ def _call(f, *a, **k):
     except Exception as e: return 'EXN:' + type(e).__name__
 
 def impl(c):
+    with limit(c):
+        return _impl(c)
+
+def _impl(c):
     S_, U_ = _su()
     op = c['op']
     if op == 'bfs':
@@ -342,20 +379,20 @@ def impl(c):
 
 def encode(c):
     op = c['op']
-    if op == 'bfs': return ['bool_from_string', LIM] + enc_val(c['v']) + ['1' if c['strict'] else '0'] + enc_val(c['default'])
-    if op == 'ifb': return ['int_from_bool', LIM] + enc_val(c['v'])
-    if op == 'ivb': return ['is_valid_boolstr', LIM] + enc_val(c['v'])
-    if op == 'iil': return ['is_int_like', LIM] + enc_val(c['v'])
-    if op == 'csl': return ['check_string_length', LIM] + enc_val(c['v']) + [enc_int(c['min']), enc_opt(c['max'])]
-    if op == 'vi': return ['validate_integer', LIM] + enc_val(c['v']) + [enc_opt(c['min']), enc_opt(c['max'])]
-    if op == 'uuid': return ['is_uuid_like', LIM] + enc_val(c['v'])
-    if op == 'fmt': return ['format_uuid', LIM, 'S', c['s'], '']
+    if op == 'bfs': return ['bool_from_string', lim_of(c)] + enc_val(c['v']) + ['1' if c['strict'] else '0'] + enc_val(c['default'])
+    if op == 'ifb': return ['int_from_bool', lim_of(c)] + enc_val(c['v'])
+    if op == 'ivb': return ['is_valid_boolstr', lim_of(c)] + enc_val(c['v'])
+    if op == 'iil': return ['is_int_like', lim_of(c)] + enc_val(c['v'])
+    if op == 'csl': return ['check_string_length', lim_of(c)] + enc_val(c['v']) + [enc_int(c['min']), enc_opt(c['max'])]
+    if op == 'vi': return ['validate_integer', lim_of(c)] + enc_val(c['v']) + [enc_opt(c['min']), enc_opt(c['max'])]
+    if op == 'uuid': return ['is_uuid_like', lim_of(c)] + enc_val(c['v'])
+    if op == 'fmt': return ['format_uuid', lim_of(c), 'S', c['s'], '']
     if op == 'gen':
         u = uuid.UUID(int=int(c['bits'], 16), version=4)      # the value uuid4() returns in impl()
-        return ['generate_uuid', LIM, 'S', '%x' % u.int, '', '1' if c['dashed'] else '0']
-    if op == 'int': return ['int', LIM, 'S', c['s'], '', c['base']]
-    if op == 'lower': return ['lower', LIM, 'S', c['s'], '']
-    if op == 'strip': return ['strip', LIM, 'S', c['s'], '']
+        return ['generate_uuid', lim_of(c), 'S', '%x' % u.int, '', '1' if c['dashed'] else '0']
+    if op == 'int': return ['int', lim_of(c), 'S', c['s'], '', c['base']]
+    if op == 'lower': return ['lower', lim_of(c), 'S', c['s'], '']
+    if op == 'strip': return ['strip', lim_of(c), 'S', c['s'], '']
     return None
 
 def decode(c, out):
@@ -389,6 +426,10 @@ HEX32 = re.compile(r'[0-9a-fA-F]{32}\Z')
 INT_ASCII = re.compile(r'[ \t\n\r\x0b\x0c]*([+-]?)([0-9]+(?:_[0-9]+)*)[ \t\n\r\x0b\x0c]*\Z')
 
 def oracle(c, io):
+    with limit(c):
+        return _oracle(c, io)
+
+def _oracle(c, io):
     op = c['op']
     if io.startswith('HARNESS-ERROR') or io.startswith('BADTYPE'): return 'unexpected result %s' % io
     if op == 'bfs':
@@ -431,12 +472,12 @@ def oracle(c, io):
             m = INT_ASCII.match(v)
             if m:
                 digits = m.group(2).replace('_', '')
-                val = None if len(digits) > LIM > 0 else int(digits) * (-1 if m.group(1) == '-' else 1)
+                val = None if len(digits) > lim_of(c) > 0 else int(digits) * (-1 if m.group(1) == '-' else 1)
             elif not any(ch.isdecimal() for ch in v): val = None
             else:
                 try: val = int(v)          # Unicode digits / whitespace: the property says int(v)
                 except ValueError: val = None
-        if isinstance(v, int) and not isinstance(v, bool) and _declen(v) > LIM > 0: val = None      # int(str(v)) does not exist
+        if isinstance(v, int) and not isinstance(v, bool) and _declen(v) > lim_of(c) > 0: val = None      # int(str(v)) does not exist
         ok = val is not None and (lo is None or val >= lo) and (hi is None or val <= hi)
         want = '%d' % val if ok else 'EXN:ValueError'
         if io != want: return 'validate_integer(%s, min=%r, max=%r) gives %s, expected %s' % (show(v), lo, hi, io[:80], want[:80])
@@ -471,9 +512,10 @@ def zone(c):
     op = c['op']
     V = c.get('v')
     if op == 'iil' and V and V['t'] == 'f' and V['v'] in ('inf', '-inf'): return 'INF'
-    if LIM > 0 and V and op in ('bfs', 'ivb', 'iil', 'ifb'):
-        if V['t'] == 'i' and _declen(int(V['v'], 16)) > LIM: return 'MAXDIGITS'
-        if V['t'] == 's' and sum(1 for ch in V['v'] if ch.isdecimal()) > LIM: return 'MAXDIGITS'
+    L = lim_of(c)
+    if L > 0 and V and op in ('bfs', 'ivb', 'iil', 'ifb'):
+        if V['t'] == 'i' and _declen(int(V['v'], 16)) > L: return 'MAXDIGITS'
+        if V['t'] == 's' and sum(1 for ch in V['v'] if ch.isdecimal()) > L: return 'MAXDIGITS'
     return None
 
 def classify(c, io):
@@ -528,5 +570,14 @@ def search(rng, budget):
     for _ in range(budget):
         yield from _gen_cases_main(rng, 'quick')
 
-LEVEL_TEXT = ''
-LEVEL_NOTE = ''
+LEVEL_TEXT = ('Theorems for all strings / integers / values (no length or size bound): bool_from_string returns True/False exactly for the '
+              'ASCII-case, whitespace-padded variants of the generated words (= the documented ones), else default / ValueError(strict); bools pass '
+              'through; other values via str(); no non-ASCII code point lowers into a word character (from the regenerated Unicode tables); '
+              'is_valid_boolstr = "strict bool_from_string recognises it" on unpadded input; is_int_like(str) <-> canonical decimal rendering '
+              '(within int_max_str_digits); validate_integer = int(str(v)) when within [min,max] else ValueError; check_string_length three-way '
+              'iff; is_uuid_like <-> 32 lower-case hex digits remain after the code\'s own decoration removal, all six canonical spellings and '
+              'both generate_uuid shapes accepted.  The nine function bodies are translated statement by statement on every run and proved '
+              'equal to the model.')
+LEVEL_NOTE = ('Trusted: Coq kernel; translator (tools/gen/gen_C14.py on top of py2gal); the CPython runtime model Model/C14_Py.v + Base strip/lower/'
+              'replace + Gen/Unicode.v (swept against the interpreter); objects other than str/int/bool/None only through observed str()/int(). '
+              'All theorems closed under the global context.  Known findings: INF (is_int_like(inf) raises OverflowError), MAXDIGITS (4300-digit limit).')
